@@ -107,6 +107,24 @@ def check(run: Run) -> None:
             run.violation({"src": p["src"], "mode": p["mode"], "need": p["need"], "origin": p["origin"]}, clause,
                           {"point": pt, "default": res[i]["points"][0], "observed": res[i]["points"][k]})
     run.exhaustive = True
+    # the two-pass strategy (TwoPass.tla): model-checked, then every program's executions (verbose off / on) validated by TLC
+    from ..tlc import validate_traces as _vt
+
+    st = run_tlc(run, "TwoPass", "SPECIFICATION Spec\nINVARIANT NoDiagnosticsInFirstPass\nINVARIANT TreeOnlyFromFirstPass\nINVARIANT ErrorOnlyAfterSecondPass\n"
+                 "INVARIANT AtMostTwoPasses\nCHECK_DEADLOCK FALSE\n", name="twopass", consts={"MaxCalls": 6}, expect_violation=True)
+    run.extra["model_TwoPass"] = "violated: " + str(st["violated"]) if st["violated"] else "holds"
+    pres = run_ops("c15_pass", [{"src": p["src"], "mode": p["mode"]} for p in progs], limit=60.0, batch=20)
+    ptraces = []
+    for i, (p, r) in enumerate(zip(progs, pres)):
+        for pt in r["points"]:
+            if pt["outcome"] != "hang":
+                ptraces.append(dict(pt, id=len(ptraces), prog=i))
+    pver = _vt(run, "PassTrace", ptraces, name="passtrace")
+    drift = [(ptraces[i], cl) for i, (cl, _k) in sorted(pver.items()) if cl != "ok"]
+    run.extra["twopass_executions_validated"] = len(ptraces)
+    if drift:
+        run.drift["TwoPass.tla laws vs recorded executions"] = len(drift)
+        run.extra["twopass_drift_examples"] = [{"src": progs[t["prog"]]["src"][:120], "clause": cl, "point": {k: t[k] for k in ("verbose", "outcome", "passes", "inv_off", "inv_first", "inv_second", "inv_unguarded")}} for t, cl in drift[:5]]
     run.rule = "program x verbose {F,T} x py_version {None, (3,8)..(3,13)} grid enumerated by TLC (Options.tla); distinct = grid points"
     run.assumptions += ["stdout of verbose runs is discarded", "running interpreter = CPython 3.12 caps py_version (min(py_version, sys.version_info))"]
 
